@@ -90,8 +90,14 @@ def simulate(
 
     sparse_choice_variables = model.variable_info.query("is_choice & is_sparse").index
 
-    # The following variables are updated during the forward simulation
-    states = initial_states
+    # The following variables are updated during the forward simulation. The initial
+    # states are converted to the data type of the grid of the state: the model
+    # functions are solved on the grids, and e.g. int8 codes or float32 columns of a data
+    # set would be evaluated with another (wrapping or less precise) arithmetic.
+    states = {
+        name: jnp.asarray(value, dtype=model.grids[name].dtype)
+        for name, value in initial_states.items()
+    }
     key = jax.random.PRNGKey(seed=seed)
 
     # Forward simulation
